@@ -104,25 +104,27 @@ Qed.
 Lemma wf_app_good : forall a b, wf_doc a -> ends_code a = true -> wf_doc b -> wf_doc (a ++ b).
 Proof.
   induction a as [|p r IH]; intros b Ha He Hb; [exact Hb|].
-  destruct p as [s|e s|c|]; cbn [app wf_doc] in *.
+  destruct p as [s|e s|c| |e s]; cbn [app wf_doc] in *.
   - destruct Ha as [Hn Hr]. split; [exact Hn|]. apply IH; auto.
   - destruct Ha as [Hn Hr]. split; [exact Hn|]. apply IH; auto.
   - destruct Ha as [Hc Hr]. split; [exact Hc|].
     destruct r as [|q r']; [discriminate|]. destruct q; try contradiction.
     cbn [app]. apply (IH b Hr); [|exact Hb]. exact He.
   - apply IH; auto.
+  - destruct Ha as [Hn Hr]. split; [exact Hn|]. apply IH; auto.
 Qed.
 
 Lemma wf_app_nl : forall a b, wf_doc a -> wf_doc (Nl :: b) -> wf_doc (a ++ Nl :: b).
 Proof.
   induction a as [|p r IH]; intros b Ha Hb; [exact Hb|].
-  destruct p as [s|e s|c|]; cbn [app wf_doc] in *.
+  destruct p as [s|e s|c| |e s]; cbn [app wf_doc] in *.
   - destruct Ha; split; auto.
   - destruct Ha; split; auto.
   - destruct Ha as [Hc Hr]. split; [exact Hc|].
     destruct r as [|q r']; [exact Hb|]. destruct q; try contradiction.
     cbn [app]. apply (IH b Hr Hb).
   - auto.
+  - destruct Ha; split; auto.
 Qed.
 
 Lemma good_app : forall a b, Good a -> Good b -> Good (a ++ b).
@@ -176,7 +178,7 @@ Definition comments_ok {A} (c : commented A) : bool :=
 
 (* the texts printed through expr_to_source are lexically self-contained *)
 Definition opaque_texts_neutral (d : doc) : Prop :=
-  Forall (fun p => match p with Opaque _ s => neutral s | _ => True end) d.
+  Forall (fun p => match p with Opaque _ s | Relined _ s => neutral s | _ => True end) d.
 Lemma otn_app : forall a b, opaque_texts_neutral (a ++ b) <-> opaque_texts_neutral a /\ opaque_texts_neutral b.
 Proof. intros; unfold opaque_texts_neutral; apply Forall_app. Qed.
 
@@ -552,6 +554,11 @@ Section Fmt.
     | EOutput x => atoms_ok x
     | ECall f args => atoms_ok f && forallb atoms_ok args
     | EBin _ l r => atoms_ok l && atoms_ok r
+    | EAccess a ix => atoms_ok a && atoms_ok ix
+    | EDot a field => atoms_ok a && plain field
+    | EUn _ a => atoms_ok a
+    | EFact a => atoms_ok a
+    | ESpread a => atoms_ok a
     | _ => true
     end.
 
@@ -568,8 +575,10 @@ Section Fmt.
     let HQ := fresh "HQ" in
     match goal with |- Q ?e /\ QC ?e =>
       assert (HQ : Q e) by
-        (intros _ ? ?; rewrite fmtd_eq' in *; unfold impl_doc in *;
-         destruct (fits_single _ _ _ _); now apply opaque_good);
+        (intros _ ? ?; rewrite fmtd_eq' in *; unfold impl_doc in *; cbn [multiline_doc contains_comments] in *;
+         rewrite ?andb_false_r in *; cbn [negb andb] in *;
+         repeat match goal with H : context [if ?b then _ else _] |- _ => destruct b end;
+         now apply opaque_good);
       split; [exact HQ | intros Hw; apply cond_doc_step_good; [exact (HQ Hw) | intros; discriminate]]
     end.
   Ltac finish HQ :=
@@ -597,7 +606,7 @@ Section Fmt.
       intros items H.
       assert (HQ : Q (EList items)).
       { intros Ha j HO. rewrite fmtd_eq' in *. unfold impl_doc in *.
-        destruct (fits_single _ _ _ _); [now apply opaque_good|].
+        match goal with |- context [if ?b then _ else _] => destruct b end; [now apply opaque_good|].
         cbn [multiline_doc] in *. cbn [atoms_ok] in Ha. apply forallb_and_split in Ha as [Hc Hs].
         apply list_doc_good; auto.
         rewrite forallb_forall in Hs. rewrite Forall_forall in *. intros c Hin. apply (H c Hin), Hs, Hin. }
@@ -606,7 +615,7 @@ Section Fmt.
       intros entries H.
       assert (HQ : Q (ERec entries)).
       { intros Ha j HO. rewrite fmtd_eq' in *. unfold impl_doc in *.
-        destruct (fits_single _ _ _ _); [now apply opaque_good|].
+        match goal with |- context [if ?b then _ else _] => destruct b end; [now apply opaque_good|].
         cbn [multiline_doc] in *. cbn [atoms_ok] in Ha. apply forallb_and_split in Ha as [Hc Hs].
         apply (record_doc_good O key_ok Hrk); auto.
         rewrite forallb_forall in Hs. rewrite Forall_forall in *. intros c Hin.
@@ -630,7 +639,7 @@ Section Fmt.
       assert (HQ : Q (ECond e1 e2 e3)).
       { intros Ha j HO. cbn [atoms_ok] in Ha. apply andb_prop in Ha as [Ha H3]. apply andb_prop in Ha as [H1 H2].
         rewrite fmtd_eq' in *. unfold impl_doc in *.
-        destruct (fits_single _ _ _ _); [now apply opaque_good|].
+        match goal with |- context [if ?b then _ else _] => destruct b end; [now apply opaque_good|].
         cbn [multiline_doc] in *. apply (QC3 H3); [exact (Q1 H1)|exact (Q2 H2)|exact HO]. }
       split; [exact HQ|].
       intros Hw; apply cond_doc_step_good; [exact (HQ Hw)|].
@@ -650,7 +659,7 @@ Section Fmt.
       intros x v [IHe _].
       assert (HQ : Q (EAssign x v)).
       { intros Ha j HO. rewrite fmtd_eq' in *. unfold impl_doc in *.
-        destruct (fits_single _ _ _ _); [now apply opaque_good|].
+        match goal with |- context [if ?b then _ else _] => destruct b end; [now apply opaque_good|].
         cbn [multiline_doc] in *. cbn [atoms_ok] in Ha. apply andb_prop in Ha as [Hx Hv].
         change (Code (x +++ " = ") :: fmtd v j) with ([Code (x +++ " = ")] ++ fmtd v j).
         apply good_app; [apply good_code, neutral_app; [now apply plain_neutral|reflexivity]|].
@@ -660,7 +669,7 @@ Section Fmt.
       intros v [IHe _].
       assert (HQ : Q (EOutput v)).
       { intros Ha j HO. rewrite fmtd_eq' in *. unfold impl_doc in *.
-        destruct (fits_single _ _ _ _); [now apply opaque_good|].
+        match goal with |- context [if ?b then _ else _] => destruct b end; [now apply opaque_good|].
         cbn [multiline_doc] in *. cbn [atoms_ok] in Ha.
         change (Code "output " :: fmtd v j) with ([Code "output "] ++ fmtd v j).
         apply good_app; [apply good_code; reflexivity|].
@@ -670,24 +679,76 @@ Section Fmt.
       intros f args [IHf _] H.
       assert (HQ : Q (ECall f args)).
       { intros Ha j HO. rewrite fmtd_eq' in *. unfold impl_doc in *.
-        destruct (fits_single _ _ _ _); [now apply opaque_good|].
+        match goal with |- context [if ?b then _ else _] => destruct b end; [now apply opaque_good|].
         cbn [multiline_doc] in *. cbn [atoms_ok] in Ha. apply andb_prop in Ha as [Hf Hargs].
         apply call_doc_good; auto.
         rewrite forallb_forall in Hargs. rewrite Forall_forall in *. intros a Hin. apply (H a Hin), Hargs, Hin. }
       finish HQ.
-    - intros; opaque_case.
-    - intros; opaque_case.
+    - (* EAccess *)
+      intros a ix [IHa _] [IHi _].
+      assert (HQ : Q (EAccess a ix)).
+      { intros Ha j HO. rewrite fmtd_eq' in *. unfold impl_doc in *.
+        match goal with |- context [if ?b then _ else _] => destruct b end; [now apply opaque_good|].
+        cbn [multiline_doc] in *.
+        match goal with |- context [if ?b then _ else _] => destruct b end; [|now apply opaque_good].
+        cbn [atoms_ok] in Ha. apply andb_prop in Ha as [H1 H2].
+        apply otn_app in HO as [O1 HO]. apply otn_app in HO as [_ HO]. apply otn_app in HO as [O2 _].
+        repeat apply good_app; try (apply good_code; reflexivity).
+        - apply wrap_parens_good, (IHa H1). now apply otn_wrap_parens in O1.
+        - now apply (IHi H2). }
+      finish HQ.
+    - (* EDot *)
+      intros a f [IHa _].
+      assert (HQ : Q (EDot a f)).
+      { intros Ha j HO. rewrite fmtd_eq' in *. unfold impl_doc in *.
+        match goal with |- context [if ?b then _ else _] => destruct b end; [now apply opaque_good|].
+        cbn [multiline_doc] in *.
+        match goal with |- context [if ?b then _ else _] => destruct b end; [|now apply opaque_good].
+        cbn [atoms_ok] in Ha. apply andb_prop in Ha as [H1 H2].
+        apply otn_app in HO as [O1 _].
+        apply good_app; [apply wrap_parens_good, (IHa H1); now apply otn_wrap_parens in O1|].
+        apply good_code. apply neutral_app; [reflexivity|now apply plain_neutral]. }
+      finish HQ.
     - (* EBin *)
       intros op e1 e2 [IH1 _] [IH2 _].
       assert (HQ : Q (EBin op e1 e2)).
       { intros Ha j HO. rewrite fmtd_eq' in *. unfold impl_doc in *.
-        destruct (fits_single _ _ _ _); [now apply opaque_good|].
+        match goal with |- context [if ?b then _ else _] => destruct b end; [now apply opaque_good|].
         cbn [multiline_doc] in *. cbn [atoms_ok] in Ha. apply andb_prop in Ha as [H1 H2].
         apply binop_doc_good; auto. }
       finish HQ.
-    - intros; opaque_case.
-    - intros; opaque_case.
-    - intros; opaque_case.
+    - (* EUn *)
+      intros op x [IHx _].
+      assert (HQ : Q (EUn op x)).
+      { intros Ha j HO. rewrite fmtd_eq' in *. unfold impl_doc in *.
+        match goal with |- context [if ?b then _ else _] => destruct b end; [now apply opaque_good|].
+        cbn [multiline_doc] in *.
+        match goal with |- context [if ?b then _ else _] => destruct b end; [|now apply opaque_good].
+        cbn [atoms_ok] in Ha. apply otn_app in HO as [_ O1].
+        apply good_app; [apply good_code; destruct op; reflexivity|].
+        apply wrap_parens_good, (IHx Ha). now apply otn_wrap_parens in O1. }
+      finish HQ.
+    - (* EFact *)
+      intros x [IHx _].
+      assert (HQ : Q (EFact x)).
+      { intros Ha j HO. rewrite fmtd_eq' in *. unfold impl_doc in *.
+        match goal with |- context [if ?b then _ else _] => destruct b end; [now apply opaque_good|].
+        cbn [multiline_doc] in *.
+        match goal with |- context [if ?b then _ else _] => destruct b end; [|now apply opaque_good].
+        cbn [atoms_ok] in Ha. apply otn_app in HO as [O1 _].
+        apply good_app; [|apply good_code; reflexivity].
+        apply wrap_parens_good, (IHx Ha). now apply otn_wrap_parens in O1. }
+      finish HQ.
+    - (* ESpread *)
+      intros x [IHx _].
+      assert (HQ : Q (ESpread x)).
+      { intros Ha j HO. rewrite fmtd_eq' in *. unfold impl_doc in *.
+        match goal with |- context [if ?b then _ else _] => destruct b end; [now apply opaque_good|].
+        cbn [multiline_doc] in *.
+        match goal with |- context [if ?b then _ else _] => destruct b end; [|now apply opaque_good].
+        cbn [atoms_ok] in Ha. apply otn_app in HO as [_ O1].
+        apply good_app; [apply good_code; reflexivity|]. now apply (IHx Ha). }
+      finish HQ.
   Qed.
 
   (* no layout merges a comment into code or code into a comment *)
